@@ -35,13 +35,15 @@ structure Inv (s : St) : Prop where
   doneFlag : s.closeDone = true → s.pflag = true
   doneQ : s.closeDone = true → s.qclose = true → s.chanClosed = true
   late0 : s.late = 0
+  pc0flag : 0 < s.cnt .pc0 → s.pflag = false
+  closerIn : s.closeStarted = true → s.closeDone = false → 0 < s.cnt .pc0 + s.cnt .pc1 + s.cnt .qc1 + s.cnt .qc2
 
 theorem inv_init (cap : Nat) (qc : Bool) : Inv (init cap qc true) := by
   constructor <;> simp [init]
 
 set_option maxHeartbeats 1600000 in
 theorem inv_spawn {s s' pc} (h : spawn s pc = some s') (hi : Inv s) : Inv s' := by
-  obtain ⟨fn, nopanic, np0, w1, wr, oneC, startedC, startedFlag, w2flag, qcflag, pcflag, qp, loadFlag, chanFlag, c2load, doneFlag, doneQ, late0⟩ := hi
+  obtain ⟨fn, nopanic, np0, w1, wr, oneC, startedC, startedFlag, w2flag, qcflag, pcflag, qp, loadFlag, chanFlag, c2load, doneFlag, doneQ, late0, pc0flag, closerIn⟩ := hi
   have b1 := Bool.toNat_le s.pflag; have b2 := Bool.toNat_le s.loadClosed; have b3 := Bool.toNat_le s.chanClosed
   have b4 := Bool.toNat_le s.closeStarted; have b5 := Bool.toNat_le s.closeDone; have b6 := Bool.toNat_le s.panic
   have b7 := Bool.toNat_le s.fixNotify; have b8 := Bool.toNat_le s.qflag; have b9 := Bool.toNat_le s.qclose
@@ -52,7 +54,7 @@ theorem inv_spawn {s s' pc} (h : spawn s pc = some s') (hi : Inv s) : Inv s' := 
 
 set_option maxHeartbeats 6400000 in
 theorem inv_step {s s' nx pc ch} (h : gstep s pc ch = some (s', nx)) (hi : Inv s) : Inv s' := by
-  obtain ⟨fn, nopanic, np0, w1, wr, oneC, startedC, startedFlag, w2flag, qcflag, pcflag, qp, loadFlag, chanFlag, c2load, doneFlag, doneQ, late0⟩ := hi
+  obtain ⟨fn, nopanic, np0, w1, wr, oneC, startedC, startedFlag, w2flag, qcflag, pcflag, qp, loadFlag, chanFlag, c2load, doneFlag, doneQ, late0, pc0flag, closerIn⟩ := hi
   obtain ⟨hc, s1, hs, rfl⟩ := gstep_some h
   clear h
   have b1 := Bool.toNat_le s.pflag; have b2 := Bool.toNat_le s.loadClosed; have b3 := Bool.toNat_le s.chanClosed
@@ -78,7 +80,7 @@ theorem inv_reach {cap qc s} (h : Reach cap qc true s) : Inv s := by
   | spawn pc _ hs ih => exact inv_spawn hs ih
   | step pc ch _ hs ih => exact inv_step hs ih
   | gate _ ih =>
-    obtain ⟨fn, nopanic, np0, w1, wr, oneC, startedC, startedFlag, w2flag, qcflag, pcflag, qp, loadFlag, chanFlag, c2load, doneFlag, doneQ, late0⟩ := ih
+    obtain ⟨fn, nopanic, np0, w1, wr, oneC, startedC, startedFlag, w2flag, qcflag, pcflag, qp, loadFlag, chanFlag, c2load, doneFlag, doneQ, late0, pc0flag, closerIn⟩ := ih
     constructor <;> simp_all
 
 def runActs : St → List (Option Bool × PC) → Option St
